@@ -86,7 +86,10 @@ META = {
                     "LTV systems are solved with dt = 1 (set_refpoint(t*dt) indexes A_t; other dt make backward and "
                     "forward pass read different matrices: hypothesis `hlin` of the theorems)",
                     "MPC: single batch item (the code compares `cost < best` as a scalar)"],
-    "partial": ["rounding: the theorems are over the reals; float accuracy is measured against the exact model with "
+    "partial": ["proved in pass 10 (no longer correspondence-only): K_t, Quu_t, Qux_t are independent of nominal and start "
+                "(gains_independent_of_nominal_and_start, mpc_linear_gains) and so is the feedback policy u_t = K_t x_t + kappa_t "
+                "(feedback_law_nominal_independent)",
+                "rounding: the theorems are over the reals; float accuracy is measured against the exact model with "
                 "the componentwise forward-error bound 1e3*eps*|H^-1||terms|",
                 "MPC on nonlinear systems: proved = feasibility w.r.t. the nonlinear transition, cost consistency, "
                 "final solve linearised around the best inputs; convergence of iLQR is not claimed by the property"],
@@ -621,7 +624,7 @@ class Snap:
 
 
 def sys_bufnames(case):
-    return ("tabA", "tabB", "tabc") if case.get("sys") == "ltvp" else ("_A", "_B", "_c1")
+    return ("vfh14_tabA", "vfh14_tabB", "vfh14_tabc") if case.get("sys") == "ltvp" else ("_A", "_B", "_c1")
 
 
 def sys_tensors(system):
@@ -840,11 +843,11 @@ def _run_lqr_case(ctx: Ctx, case, lines, metas):
                             U.pp().module.LQR(system, Qb, torch.tensor(prob["p"], dtype=dt_t), T)(x0, case["dt"])
                         elif why == "sys_inject" and prob["tv"]:
                             # the user's A_t raises in the middle of a solve on THIS LQR object (roll-out, backward or forward pass)
-                            system.fail_at = op[2] % (3 * T)
+                            system.vfh14_fail_at = op[2] % (3 * T)
                             try:
                                 lq(x0, case["dt"])
                             finally:
-                                system.fail_at = -1
+                                system.vfh14_fail_at = -1
                         elif why == "sys_raise" and prob["tv"]:
                             T2 = L + 1                      # the clock-indexed tables end before the horizon: IndexError mid roll-out
                             c2 = dict(case, T=T2, qshape="full", mixed=False)
@@ -1218,7 +1221,7 @@ def check_mpc_loop(ctx: Ctx, case, rec: Recorder, tag, u_given=False, u_init=Non
 
 def mpc_attrs(mpc):
     st = mpc.stepper
-    return (st.max_steps, getattr(st, "patience", None), getattr(st, "decreasing", None), getattr(st, "tol", None), getattr(st, "k", None),
+    return (st.max_steps, getattr(st, "patience", None), getattr(st, "decreasing", None), getattr(st, "tol", None), getattr(st, "vfh14_k", getattr(st, "k", None)),
             type(st).__name__, lqr_attrs(mpc.lqr))
 
 
@@ -1528,14 +1531,14 @@ def run_mpc_nls(ctx: Ctx, case, lines, metas):
                 # calls again — the retry must be what the call would have been (model line below, oracles)
                 att = mpc_attrs(mpc)
                 snapf = Snap(sys_tensors(system) + [("Q", mpc.lqr.Q), ("p", mpc.lqr.p)])
-                system.fail_at = case["data_seed"] % (3 * T + 2)
+                system.vfh14_fail_at = case["data_seed"] % (3 * T + 2)
                 try:
                     with contextlib.redirect_stdout(io.StringIO()):
                         mpc(1, mk(spc["x0"])) if uin is None else mpc(1, mk(spc["x0"]), torch.tensor(uin))
                     raised = False
                 except ArithmeticError:
                     raised = True
-                system.fail_at = -1
+                system.vfh14_fail_at = -1
                 if snapf.changed() or mpc_attrs(mpc) != att:
                     ctx.fail(case, f"atomicity: {tag}: a call in which the user's system raised changed {snapf.changed() or 'public attributes of the MPC object'}")
                     ok = False
